@@ -28,6 +28,7 @@ type AvahiProvider struct {
 	avBrowser    avahi.ServiceBrowserInterface
 
 	autoReconnect   bool
+	reconnecting    bool // a reconnect loop is running
 	manualShutdown  bool
 	setupSuccessful bool
 	listenerRunning bool
@@ -117,6 +118,9 @@ func (a *AvahiProvider) start(autoReconnect bool, cb api.MdnsResolveCB, reconnec
 		a.listenerRunning = true
 		go a.chanListener(cb)
 	}
+
+	// connected again, a disconnect from now on needs a new reconnect loop
+	a.reconnecting = false
 
 	return true
 }
@@ -236,6 +240,13 @@ func (a *AvahiProvider) avahiCallback(event avahi.Event) {
 		return
 	}
 
+	// a connection that got lost again while reconnecting is handled by the running loop
+	if a.reconnecting {
+		a.mux.Unlock()
+		return
+	}
+	a.reconnecting = true
+
 	logging.Log().Debug("mdns: avahi - disconnected")
 
 	// the server was shutdown, its entry group and service browser are gone with it
@@ -259,6 +270,9 @@ func (a *AvahiProvider) attemptReconnect(cb api.MdnsResolveCB, serviceData *mdns
 	for {
 		a.mux.Lock()
 		isManualShutdown := a.manualShutdown
+		if isManualShutdown {
+			a.reconnecting = false
+		}
 		a.mux.Unlock()
 		if isManualShutdown {
 			return
